@@ -192,6 +192,23 @@ def fixed():
     t.files['inc/x.inc'] = ['ldi r16, 12']
     ws.append(('relative_includepath_not_resolved_against_working_directory', t.job('proj/main.asm'), ('err_naming', 'x.inc')))
 
+    # the same for the main file: the path the caller gave is the one whose directory counts, also when it is a symbolic link
+    t = Tree()
+    t.files['shared/main.asm'] = ['.include "defs.inc"', '.includepath "inc"', '.include "more.inc"', 'ret']
+    t.files['proj/defs.inc'] = ['ldi r16, 15']
+    t.files['proj/inc/more.inc'] = ['ldi r17, 16']
+    t.files['proj/main.asm -> ../shared/main.asm'] = []
+    ws.append(('main_file_reached_through_a_symbolic_link', t.job('proj/main.asm'), ('same_as', 'ldi r16, 15\nldi r17, 16\nret\n')))
+
+    # a main file found through a caller-supplied directory: a nested file found nowhere is still the one the error names
+    t = Tree()
+    t.files['lib/main.asm'] = ['nop', '.include "absent.inc"', 'ret']
+    ws.append(('missing_nested_file_named_when_main_comes_from_caller_directory', t.job('main.asm', ('lib',)), ('err_naming', 'absent.inc')))
+    t = Tree()
+    t.files['lib/main.asm'] = ['nop', '.include "here.inc"', 'ret']
+    t.files['lib/here.inc'] = ['ldi r16, 17']
+    ws.append(('main_file_from_caller_directory', t.job('main.asm', ('lib',)), ('same_as', 'nop\nldi r16, 17\nret\n')))
+
     # the directory of the including file is the directory of the name it was included under, also when that name is a symbolic link
     t = Tree()
     t.files['proj/main.asm'] = ['.include "lib/b.inc"', 'ret']
